@@ -13,7 +13,7 @@ import (
 func init() {
 	register("C06", PropCheck{
 		Title:      "Signal flags steer control flow and the reserved ones are tamper-proof",
-		Explain:    "Structural clauses decided for all inputs/histories: (R1) every State.SetFlag/ResetFlag call in the library whose flag argument is not a compile-time constant is dominated by the true edge of state.IsWriteableFlag on that same value (lifted through parameters to the callers); (R2) the set accepted by IsWriteableFlag, computed by interval analysis of its body, is exactly {TERMINATE, LANG} plus all indices >= FLAG_USERSTART and equals the 'Writeable?' column of doc/texinfo/signals.texi; (R3) State.Flags is stored to only inside package state; (R4) in Vm.Run every opcode-handler call and every opSplit call is separated from the function entry and from every other handler call by the 'TERMINATE unset' edge of a test of FLAG_TERMINATE, and DefaultEngine.exec does not record new code after a run that left TERMINATE set; (R5) the constant resets of FLAG_TERMINATE in the library are only the no-op behind the test in Run and the engine's session-restart reset; (R6) the move in the CATCH handler and the purge in the CROAK handler are control dependent on the true edge of MatchFlag(sig, mode) applied to the decoded signal and mode, MatchFlag is GetFlag(sig)==mode, nothing else happens on the other edge, and CROAK returns fresh empty code on the match edge.",
+		Explain:    "Structural clauses decided for all inputs/histories: (R1) every State.SetFlag/ResetFlag call in the library whose flag argument is not a compile-time constant is dominated by the true edge of state.IsWriteableFlag on that same value (lifted through parameters to the callers); (R2) the set accepted by IsWriteableFlag, computed by interval analysis of its body, is exactly {TERMINATE, LANG} plus all indices >= FLAG_USERSTART and equals the 'Writeable?' column of doc/texinfo/signals.texi; (R3) State.Flags is stored to only inside package state; (R4) in Vm.Run every opcode-handler call and every opSplit call is separated from the function entry and from every other handler call by the 'TERMINATE unset' edge of a test of FLAG_TERMINATE, and DefaultEngine.exec does not record new code after a run that left TERMINATE set; (R5) the constant resets of FLAG_TERMINATE in the library are only the no-op behind the test in Run and the engine's session-restart reset; (R6) the move in the CATCH handler and the purge in the CROAK handler are control dependent on the true edge of MatchFlag(sig, mode) applied to the decoded signal and mode, MatchFlag is GetFlag(sig)==mode, nothing else happens on the other edge, and CROAK returns fresh empty code on the match edge; (R8) the reserved flag byte is re-initialised as a whole (State.Restart) only by the engine's session restart, never from package vm (added after seeded change C06-F, where a matching CROAK restarted the state and wiped READIN); (R9) flag addressing loses no bits: package state contains no lossy integer narrowing and no arithmetic in a narrow type that its result can leave (a uint8 byte offset wraps at 256 flag bytes), and the integer decoder that yields the CATCH/CROAK signal decodes every accepted operand length from the operand bytes (shared with C14 R8; added after seeded changes C06-G and C06-H).",
 		NotDecided: "behaviour for flag indices beyond the configured count (bytecode-supplied ones: C15); what application EntryFuncs do with a *State they captured themselves; transcripts over histories.",
 		Assume:     []string{"external code reaches the state only through resource.Result (documented contract of resource.EntryFunc)"},
 		Run:        runC06,
@@ -171,6 +171,8 @@ func runC06(w *core.World, r *core.Report) {
 	r.Rule("R4", "FLAG_TERMINATE test separates entry and every handler call from every handler call in Vm.Run; engine.exec stops before setCode when TERMINATE is set")
 	r.Rule("R5", "who may clear FLAG_TERMINATE with a constant reset: the no-op behind Run's test and the engine's session restart")
 	r.Rule("R6", "CATCH moves / CROAK purges exactly on the true edge of MatchFlag(decoded sig, decoded mode); MatchFlag is GetFlag(sig)==mode")
+	r.Rule("R9", "flag addressing loses no bits: no lossy narrowing in package state, and the integer decoder that yields CATCH/CROAK signals decodes every accepted operand length from the operand bytes")
+	r.Rule("R8", "the reserved flag byte is re-initialised (State.Restart) only by the engine's session restart")
 	r.Rule("R7", "the library sets TERMINATE with a constant only behind a READIN-unset test (out of code outside input handling); CROAK itself never does")
 
 	fTerm, ok1 := constOf(w, r, "state", "FLAG_TERMINATE")
@@ -181,25 +183,7 @@ func runC06(w *core.World, r *core.Report) {
 	}
 
 	// ---- R1 ----------------------------------------------------------------------------------
-	dyn := 0
-	for _, fn := range w.LibFuncs {
-		for _, c := range core.CallsTo(fn, stSetFlag, stResetFlag) {
-			r.CallSites++
-			args := core.CallArgs(c)
-			if len(args) < 2 {
-				continue
-			}
-			if _, ok := core.ConstInt(core.Strip(args[1])); ok {
-				continue
-			}
-			dyn++
-			name := strings.TrimPrefix(core.CallName(c), "state.(*State).")
-			ok, why := guardedByWriteable(w, c, args[1], 0)
-			r.Touch(core.QName(fn))
-			r.Check(ok, "R1", fmt.Sprintf("%s: dynamic %s", core.QName(fn), name), c.Pos(), why, "flag write with a run-time index is not behind the write filter: "+why)
-		}
-	}
-	r.Floor("R1", "dynamic flag writes", dyn, 2)
+	checkFlagWriteFilter(w, r, "R1")
 
 	// ---- R2 ----------------------------------------------------------------------------------
 	if fw := anchor(w, r, "state", "IsWriteableFlag"); fw != nil {
@@ -417,6 +401,44 @@ func runC06(w *core.World, r *core.Report) {
 			}
 		}
 		r.Floor("R7", "constant TERMINATE sets", nset, 1)
+	}
+	// ---- R8 ----------------------------------------------------------------------------------
+	checkRestartCallers(w, r, "R8")
+	// ---- R9 ----------------------------------------------------------------------------------
+	{
+		// the flag-addressing functions: those of package state that touch the flag bytes, and the
+		// functions of the package they call
+		inSet := map[*ssa.Function]bool{}
+		for _, fn := range w.FuncsIn("state") {
+			if fn.Name() == "FlagByteSize" || fn.Name() == "GetIndex" || fn.Name() == "String" {
+				continue // reporting helpers outside the request path
+			}
+			for _, in := range allInstrs(fn) {
+				if v, ok := in.(ssa.Value); ok {
+					if _, f, ok := core.LoadedField(v); ok && f == "Flags" {
+						inSet[fn] = true
+					}
+				}
+			}
+		}
+		for round := 0; round < 3; round++ {
+			for fn := range inSet {
+				for _, c := range core.Calls(fn) {
+					if g := core.StaticCallee(c); g != nil && core.PkgOf(g) == "state" && len(g.Blocks) > 0 {
+						inSet[g] = true
+					}
+				}
+			}
+		}
+		var sfns []*ssa.Function
+		for _, fn := range w.FuncsIn("state") {
+			if inSet[fn] {
+				sfns = append(sfns, fn)
+			}
+		}
+		checkNarrowing(w, r, "R9", sfns, "a flag index or byte offset wraps: a write to a client flag lands on a reserved flag (or another client flag) although the write filter saw a legal index")
+		checkNarrowArithmetic(w, r, "R9", sfns, "a flag byte offset or mask is computed in a type it can leave")
+		checkIntDecoderTotal(w, r, "R9")
 	}
 
 	// ---- R6 ----------------------------------------------------------------------------------
@@ -688,4 +710,28 @@ func flagTestEdgesOfValue(c *ssa.Call, flag int64) (trueMeansSet bool, tests []s
 		return false, nil
 	}
 	return mc.Value.String() == "true", []ssa.CallInstruction{c}
+}
+
+// checkFlagWriteFilter (C06 R1, C03 R11): every State.SetFlag / ResetFlag in the library whose index
+// is not a constant is dominated by IsWriteableFlag(x)==true on the same value.
+func checkFlagWriteFilter(w *core.World, r *core.Report, rule string) {
+	dyn := 0
+	for _, fn := range w.LibFuncs {
+		for _, c := range core.CallsTo(fn, stSetFlag, stResetFlag) {
+			r.CallSites++
+			args := core.CallArgs(c)
+			if len(args) < 2 {
+				continue
+			}
+			if _, ok := core.ConstInt(core.Strip(args[1])); ok {
+				continue
+			}
+			dyn++
+			name := strings.TrimPrefix(core.CallName(c), "state.(*State).")
+			ok, why := guardedByWriteable(w, c, args[1], 0)
+			r.Touch(core.QName(fn))
+			r.Check(ok, rule, fmt.Sprintf("%s: dynamic %s", core.QName(fn), name), c.Pos(), why, "flag write with a run-time index is not behind the write filter: "+why)
+		}
+	}
+	r.Floor(rule, "dynamic flag writes", dyn, 2)
 }
